@@ -58,6 +58,7 @@ def _single(draw, max_rows):
             c["name"] = nm
     names = [c["name"] for c in fp["cols"]] + ["_rid_"]
     op = draw(st.sampled_from(["select", "unselect", "rename", "colnames", "colnames", "modify"]))
+    draw(gen.decorate(fp))
     plan = {"op": op, "frame": fp}
     if op == "select":
         plan["names"] = list(draw(st.permutations(names)))[:draw(st.integers(0, len(names)))]
